@@ -389,7 +389,7 @@ class RefAsm:
             v = self.now_eval(e, scope)
         except Undefined as u:
             raise Unspec(f"position depends on a value not known yet ({u})") from u
-        self.assumptions.append((e, scope, v))
+        self.assumptions.append((e, scope, v, "value"))
         return v
 
     def parse_table(self, text):
@@ -415,7 +415,7 @@ class RefAsm:
                 v = self.now_eval(e, scope)
             except Undefined as u:
                 raise Unspec(f"operand width inferred from a value not known yet ({u})") from u
-            self.assumptions.append((e, scope, v))
+            self.assumptions.append((e, scope, v, "width"))
             self.stats["inferred"] += 1
             width = isa.natural_width(v)
             if width is None:
@@ -480,9 +480,10 @@ class RefAsm:
                 raise Unspec(str(u)) from u
         self.eq_limit = None
         # 2. assumptions made during layout must hold in the final environment
-        for e, scope, v in self.assumptions:
+        for e, scope, v, what in self.assumptions:
             try:
-                if self.final_eval(e, scope) != v:
+                fv = self.final_eval(e, scope)
+                if (fv != v) if what == "value" else (isa.natural_width(fv) != isa.natural_width(v)):
                     raise Unspec("a value used for sizing/positioning changes once all names are known")
             except Fail as f:
                 raise Unspec(str(f)) from f
